@@ -13,7 +13,8 @@
      DebugLogOnly     emits location-less diagnostics of kind Debug in map order: not part of
                       BuildResult (Errors/Warnings), only of the stderr log at --log-level=debug
      DeadCode         guarded by a compile-time false constant
-     UnsortedDiagnostics  KNOWN BAD: location-less errors in map order reach BuildResult.Errors *)
+     UnsortedDiagnostics  KNOWN BAD: location-less errors in map order reach BuildResult.Errors
+                      (no site has this class since fix 0b86dd3) *)
 From Coq Require Import String List Bool.
 From V Require Import gen.MapSitesGen.
 Import ListNotations.
@@ -93,18 +94,18 @@ Definition classification : list (site * site_class) := [
   ((R, "ComputeReservedNames", "js_lexer.StrictModeReservedWords", 0), CommutativeFold "set insert");
   ((R, "assignNestedScopeSlotsHelper", "scope.Members", 0), SortedAfter "sort.Ints(sortedMembers)");
   ((R, "computeReservedNamesForScope", "scope.Members", 0), CommutativeFold "set insert");
-  ((A, "cloneMangleCache", "mangleCache", 0), UnsortedDiagnostics "location-less errors per invalid entry in map order");
+  ((A, "cloneMangleCache", "mangleCache", 0), SortedAfter "sort.Strings(sortedKeys) since fix 0b86dd3 (finding C08-G2: location-less errors used to be logged in map order)");
   ((A, "rebuildImpl", "oldHashes", 0), CommutativeFold "paths to delete; deletions run in parallel on distinct paths");
-  ((A, "validateAlias", "alias", 0), UnsortedDiagnostics "location-less errors per invalid alias in map order");
-  ((A, "validateBannerOrFooter", "values", 0), UnsortedDiagnostics "location-less errors per invalid file type in map order");
-  ((A, "validateBuildOptions", "options.ExtensionToLoader", 0), UnsortedDiagnostics "reports the first of file/copy loader met in map order, then breaks");
+  ((A, "validateAlias", "alias", 0), SortedAfter "sort.Strings(sortedKeys) since fix 0b86dd3 (finding C08-G2: location-less errors used to be logged in map order)");
+  ((A, "validateBannerOrFooter", "values", 0), SortedAfter "sort.Strings(sortedKeys) since fix 0b86dd3 (finding C08-G2: location-less errors used to be logged in map order)");
+  ((A, "validateBuildOptions", "options.ExtensionToLoader", 0), SortedAfter "sort.Strings(sortedKeys) since fix 0b86dd3 (finding C08-G2: location-less errors used to be logged in map order)");
   ((A, "validateDefines", "defines", 0), SortedAfter "sort.Strings(sortedKeys)");
   ((A, "validateDefines", "rawDefines", 0), CommutativeFold "ProcessDefines builds maps keyed by the define key; keys are distinct");
   ((A, "validateFeatures", "constraints", 0), SortedAfter "sort.Strings(targets)");
-  ((A, "validateLoaders", "loaders", 0), UnsortedDiagnostics "location-less errors per invalid extension in map order");
+  ((A, "validateLoaders", "loaders", 0), SortedAfter "sort.Strings(sortedKeys) since fix 0b86dd3 (finding C08-G2: location-less errors used to be logged in map order)");
   ((A, "validateLogOverrides", "input", 0), PerKeyWrite "output[msgID] per message id");
-  ((A, "validateOutputExtensions", "outExtensions", 0), UnsortedDiagnostics "location-less errors per invalid entry in map order");
-  ((A, "validateSupported", "supported", 0), UnsortedDiagnostics "location-less errors per unknown feature in map order; masks are OR-folds")
+  ((A, "validateOutputExtensions", "outExtensions", 0), SortedAfter "sort.Strings(sortedKeys) since fix 0b86dd3 (finding C08-G2: location-less errors used to be logged in map order)");
+  ((A, "validateSupported", "supported", 0), SortedAfter "sort.Strings(sortedKeys) since fix 0b86dd3 (finding C08-G2); the feature masks are OR-folds")
 ].
 
 Fixpoint classify (s : site) (tbl : list (site * site_class)) : option site_class :=
@@ -124,16 +125,9 @@ Definition class_ordered (c : site_class) : bool :=
 Definition site_ordered (s : site) : bool :=
   match class_of s with Some c => class_ordered c | None => false end.
 
-(* the sites known to leak map order into BuildResult (finding C08-G2) *)
-Definition known_unordered : list site := [
-  (A, "cloneMangleCache", "mangleCache", 0);
-  (A, "validateAlias", "alias", 0);
-  (A, "validateBannerOrFooter", "values", 0);
-  (A, "validateBuildOptions", "options.ExtensionToLoader", 0);
-  (A, "validateLoaders", "loaders", 0);
-  (A, "validateOutputExtensions", "outExtensions", 0);
-  (A, "validateSupported", "supported", 0)
-].
+(* sites known to leak map order into BuildResult: none since fix 0b86dd3
+   (finding C08-G2 were the seven option validators of pkg/api/api_impl.go) *)
+Definition known_unordered : list site := [].
 
 Definition in_known (s : site) : bool := existsb (site_eqb s) known_unordered.
 
@@ -147,3 +141,4 @@ Definition known_are_present_and_bad : bool :=
 (* stale table entries (site no longer in the source) *)
 Definition stale_entries : list site :=
   map fst (filter (fun kc => negb (existsb (site_eqb (fst kc)) map_sites)) classification).
+Definition all_ordered : bool := forallb site_ordered map_sites.
